@@ -87,7 +87,8 @@ pub fn do_op<P: Pat>(
     let call = json!({"k":"call","t":t,"a":a,"nd":nd,"c":c,"h":h});
     let mut r = "Ok".to_string();
     let mut uid = String::new();
-    let mut s = dflt.clone();
+    let _ = dflt;
+    let mut s = json!({});
     let mut v = 0u64;
     let g1;
     let g2;
